@@ -4,6 +4,7 @@
   every vector length `2^k`; the verifier's decision is the protocol's algebraic equation.
 -/
 import GoIpa.Lemmas.FoldingScalars
+import GoIpa.Model.Config
 namespace GoIpa.C04
 open GoIpa
 
@@ -176,5 +177,88 @@ theorem ipa_complete (cfg : IpaCfg F G) (tr : Tr) (a : List F) (z : F)
       module
     rw [this]
     exact hrefl _
+
+end GoIpa.C04
+
+namespace GoIpa.C04
+open GoIpa
+
+section selection
+variable {F G : Type} [Field F] [DecidableEq F]
+
+theorem innerProd_replicate_zero (a : List F) (n : Nat) : innerProd a (List.replicate n (0 : F)) = 0 := by
+  induction a generalizing n with
+  | nil => simp
+  | cons x a ih => cases n with
+    | zero => simp
+    | succ n => simp [List.replicate_succ, ih]
+
+/-- inner product with a unit vector picks the entry -/
+theorem innerProd_unit (a : List F) (N i : Nat) (ha : a.length = N) (hi : i < N) :
+    innerProd a ((List.range N).map fun j => if j = i then (1 : F) else 0) = a.getD i 0 := by
+  subst ha
+  induction a generalizing i with
+  | nil => simp at hi
+  | cons x a ih =>
+    rw [List.length_cons, List.range_succ_eq_map]
+    simp only [List.map_cons, List.map_map, innerProd_cons]
+    cases i with
+    | zero =>
+      have : innerProd a (List.map ((fun j => if j = 0 then (1 : F) else 0) ∘ Nat.succ) (List.range a.length)) = 0 := by
+        have hz : (List.map ((fun j => if j = 0 then (1 : F) else 0) ∘ Nat.succ) (List.range a.length)) = List.replicate a.length 0 := by
+          apply List.ext_getElem <;> simp
+        rw [hz]
+        exact innerProd_replicate_zero a _
+      simp [this]
+    | succ i =>
+      have hi' : i < a.length := by simpa using hi
+      have := ih i hi'
+      have hm : (List.map ((fun j => if j = i + 1 then (1 : F) else 0) ∘ Nat.succ) (List.range a.length))
+          = (List.range a.length).map fun j => if j = i then (1 : F) else 0 := by
+        apply List.map_congr_left; intro j _; simp
+      rw [hm, this]; simp
+
+/-- **In-domain selection.** When the evaluation point is the domain element `i`, `computeBVector`
+is the `i`-th unit vector, so the proved value is the evaluation `a[i]` itself. -/
+theorem bVector_inDomain (cfg : IpaCfg F G) (z : F) (i : Nat) (h : cfg.inDomain z = some i) :
+    bVector cfg z = (List.range cfg.N).map fun j => if j = i then (1 : F) else 0 := by
+  unfold bVector; rw [h]
+
+theorem innerProd_bVector_inDomain (cfg : IpaCfg F G) (z : F) (i : Nat) (h : cfg.inDomain z = some i)
+    (a : List F) (ha : a.length = cfg.N) (hi : i < cfg.N) : innerProd a (bVector cfg z) = a.getD i 0 := by
+  rw [bVector_inDomain cfg z i h, innerProd_unit a cfg.N i ha hi]
+
+/-- out of the domain the vector is the barycentric coefficient vector (C18 relates it to `p(z)`) -/
+theorem bVector_outside (cfg : IpaCfg F G) (z : F) (h : cfg.inDomain z = none) :
+    bVector cfg z = cfg.weights.baryCoeffs cfg.N z := by
+  unfold bVector; rw [h]
+
+end selection
+
+/-- **The switch between in-domain and out-of-domain handling happens exactly between 255 and
+256**, for the concrete scalar field. -/
+theorem frInDomain_iff (z : Fr) (i : Nat) : frInDomain 256 z = some i ↔ (Zp.val z = i ∧ i ≤ 255) := by
+  unfold frInDomain
+  constructor
+  · intro h
+    split at h
+    · cases h; exact ⟨rfl, by omega⟩
+    · cases h
+  · rintro ⟨rfl, hle⟩
+    simp [hle]
+
+theorem frInDomain_none_iff (z : Fr) : frInDomain 256 z = none ↔ 256 ≤ Zp.val z := by
+  unfold frInDomain
+  constructor
+  · intro h
+    split at h
+    · cases h
+    · omega
+  · intro h
+    have : ¬ Zp.val z ≤ 256 - 1 := by omega
+    simp [this]
+
+example : frInDomain 256 (Zp.ofNat R 255) = some 255 := by decide
+example : frInDomain 256 (Zp.ofNat R 256) = none := by decide
 
 end GoIpa.C04
